@@ -43,13 +43,37 @@ static work_queue_item_t* node_by_name(const char* n) {
   fprintf(stderr, "unknown node %s\n", n);
   exit(64);
 }
+static unsigned long long g_count_applied, g_count_base;
+static void dec_in(const void* base, char* out, size_t cap) {
+  unsigned long long v = (unsigned long long)((const work_queue_t*)base)->in_count;
+  snprintf(out, cap, "%lld", (long long)(v >= g_count_applied ? v - g_count_applied : v)); /* the base cancels when a session ends */
+}
+static void dec_out(const void* base, char* out, size_t cap) {
+  unsigned long long v = (unsigned long long)((const work_queue_t*)base)->out_count;
+  snprintf(out, cap, "%lld", (long long)(v >= g_count_applied ? v - g_count_applied : v));
+}
+/* called by a thread that has just been told START_WORKING (it is the only one touching out_count) */
+static void maybe_bump(void) {
+  if (!g_count_base || g_count_applied) return;
+  vrt_nosched_begin();
+  __sync_fetch_and_add(&wq.in_count, g_count_base);
+  wq.out_count += g_count_base;
+  g_count_applied = g_count_base;
+  vrt_nosched_end();
+}
 static void drv_setup(void) {
+  const char* cb0 = t_param("count_base");
+  g_count_base = cb0 ? strtoull(cb0, NULL, 10) : 0;
   work_queue_init(&wq);
   static const vrt_field_t qf[] = {
       {"head", offsetof(work_queue_t, fifo.head), 8, VD_PTR, 0, 0},
       {"tail", offsetof(work_queue_t, fifo.tail), 8, VD_PTR, 0, 0},
-      {"in_count", offsetof(work_queue_t, in_count), 8, VD_I64, 0, 0},
-      {"out_count", offsetof(work_queue_t, out_count), 8, VD_I64, 0, 0},
+      /* counters are rendered relative to a base that the first worker adds to both of them
+         (scenario parameter count_base), so that a run can cross the 2^32 boundary */
+      {"inb", offsetof(work_queue_t, in_count), 1, VD_U8, VF_NOEPOCH, 0},   /* low bytes: keep accesses scheduling points */
+      {"outb", offsetof(work_queue_t, out_count), 1, VD_U8, VF_NOEPOCH, 0},
+      {"in_count", 0, 0, VD_CUSTOM, 0, dec_in},
+      {"out_count", 0, 0, VD_CUSTOM, 0, dec_out},
   };
   vrt_reg_obj("stub", (void*)wq.fifo.head, sizeof(mpsc_fifo_node_t), node_fields, 2);
   const char* ns = t_param("nodes");
@@ -67,7 +91,7 @@ static void drv_setup(void) {
       if (!strcmp(t_ops[t][i].op, "push")) val_ptr(t_ops[t][i].a2);
       if (strcmp(t_ops[t][i].op, "wait")) total_ops++;
     }
-  vrt_reg_obj("wq", &wq, sizeof wq, qf, 4);
+  vrt_reg_obj("wq", &wq, sizeof wq, qf, 6);
 }
 /* The runtime parks a thread that calls cpu_relax() until some other thread changes memory.  The
  * worker decides to relax from reads that may be older than the last change of the last pusher; if
@@ -93,6 +117,7 @@ static void drv_op(int tid, const char* op, const char* a1, const char* a2, cons
     vrt_api("\"f\":\"t%d\",\"ph\":\"ret\",\"op\":\"push\",\"o\":\"%s\",\"v\":\"%s\",\"r\":%d", tid, a1, a2,
             r == WORK_QUEUE_START_WORKING ? 1 : 0);
     if (r == WORK_QUEUE_START_WORKING) {
+      maybe_bump();
       for (;;) {
         work_queue_item_t* out = NULL;
         vrt_api("\"f\":\"t%d\",\"ph\":\"call\",\"op\":\"get\",\"v\":\"null\"", tid);
